@@ -203,6 +203,21 @@ def b_polygon_point(ctx):
     return d
 
 
+def b_triangle_point(ctx):
+    """triangle with free real vertices (free weights: the path on which every weight is exactly 1, where normalized_array returns the
+    operand's own array, is one of the explored paths) and a free point"""
+    from geometer import Triangle, Point
+    vs = []
+    for i in range(3):
+        w = ctx.reals(f"v{i}", 3)
+        ctx.assume(R.nonzero(ctx, E(w)))
+        vs.append(Point(w))
+    ctx.assume(ctx.neg(R.rank_deficient(ctx, [E(v.array) for v in vs])))
+    d = {"tri": Triangle(*vs)}
+    d.update(_pts(ctx, "p", 3))
+    return d
+
+
 def b_collections2(ctx):
     from geometer import PointCollection, LineCollection
     P, L = ctx.reals("P", 2, 3), ctx.reals("L", 2, 3)
@@ -318,6 +333,11 @@ def ops():
     add("poly.vertices", b_polygon_point, lambda s: s["poly"].vertices)
     add("poly.centroid", b_polygon_point, lambda s: s["poly"].centroid)
     add("poly.contains(p)", b_polygon_point, lambda s: s["poly"].contains(s["p"]), tiers=T, max_paths=3000)
+    add("tri.contains(p)", b_triangle_point, lambda s: s["tri"].contains(s["p"]), max_paths=3000)
+    add("tri.area", b_triangle_point, lambda s: s["tri"].area)
+    add("tri.volume", b_triangle_point, lambda s: s["tri"].volume)
+    add("tri.circumcenter", b_triangle_point, lambda s: s["tri"].circumcenter, tiers=T, max_paths=3000)
+    add("tri.edges", b_triangle_point, lambda s: s["tri"].edges)
     add("poly==poly", b_polygon_point, lambda s: s["poly"] == s["poly"])
     add("poly+p", b_polygon_point, lambda s: s["poly"] + s["p"])
     # ---- collections 2-D
